@@ -525,6 +525,11 @@ class Workflow(Composite):
 
         return replaced, replacement_node
 
+    @classmethod
+    def parent_type(cls) -> type[None]:
+        # Parent-most: the only "parent" a workflow accepts is None
+        return type(None)
+
     @property
     def parent(self) -> None:
         return None
